@@ -60,6 +60,10 @@ func (w *World) asyncWriteDone(aid int, cs *connState, opID, n int, c gnet.Conn,
 			w.violate("C04", "write-after-close-accepted", "conn %d: an asynchronous write completed without error after OnClose", cs.idx)
 			return
 		}
+		if cs.inOnClose {
+			cs.tail = append(cs.tail, wEntry{opID, n})
+			return
+		}
 		cs.W = append(cs.W, wEntry{opID, n})
 		cs.wBytes += n
 		return
